@@ -528,11 +528,17 @@ def c17_reorder(ctx, repo):
     loops = [n for n in walk_no_nested(f.node) if isinstance(n, ast.For) and norm(n.iter) == "coverage_containers"]
     ok = bool(loops) and all(g.dominates(g.id_of(sgo[0]), g.id_of(l)) for l in loops) if sgo else False
     ctx.ob("REORDER-flow", f.where, "rules are applied after the new order is installed (sort keys use the new glyph ids)", ok)
-    cffs = sorted(norm(n.targets[0]) for n in walk_no_nested(f.node) if isinstance(n, ast.Assign) and "topDictIndex[0]" in norm(n.targets[0]))
-    ok = cffs == ["cff_table.cff.topDictIndex[0].CharStrings.charStrings", "cff_table.cff.topDictIndex[0].charset"]
+    from ..core import walk_closure, private_callees
+
+    # the CFF rewrite may live in a private helper (extract function): look at the closure
+    clos = list(walk_closure(repo, f))
+    cffs = sorted(norm(n.targets[0]).split(".cff.", 1)[-1] for n in clos if isinstance(n, ast.Assign) and "topDictIndex[0]" in norm(n.targets[0]))
+    ok = cffs == ["topDictIndex[0].CharStrings.charStrings", "topDictIndex[0].charset"]
     ctx.ob("REORDER-flow", f.where, f"CFF rewritten: {cffs}", ok)
-    cs = [n.value for n in walk_no_nested(f.node) if isinstance(n, ast.Assign) and norm(n.targets[0]).endswith("CharStrings.charStrings")]
-    ok = bool(cs) and isinstance(cs[0], ast.DictComp) and norm(cs[0].generators[0].iter) == "new_glyph_order"
+    cs = [n.value for n in clos if isinstance(n, ast.Assign) and norm(n.targets[0]).endswith("CharStrings.charStrings")]
+    # the new order is the function's second parameter (whatever a helper calls it)
+    order_names = {f.node.args.args[1].arg} | {h.node.args.args[-1].arg for h in private_callees(repo, f) if h.node.args.args}
+    ok = bool(cs) and isinstance(cs[0], ast.DictComp) and norm(cs[0].generators[0].iter) in order_names
     ctx.ob("REORDER-flow", f.where, "charStrings rebuilt by iterating new_glyph_order", ok)
     tf = repo.mod("ttLib/ttFont.py").func("TTFont.setGlyphOrder")
     dels = [norm(n) for n in ast.walk(tf.node) if isinstance(n, (ast.Delete,))] + [norm(c) for c in calls_in(tf.node) if call_name(c) == "delattr"]
@@ -703,10 +709,14 @@ def c17_scale(ctx, repo):
     cffv = [f for q, f in sm.funcs.items() if any("CFF2" in norm(d) for d in f.node.decorator_list)]
     ok = False
     if cffv:
+        from ..cfg import implied_conditions
+
+        gv = CFG(cffv[0].node)
         for n in ast.walk(cffv[0].node):
             if isinstance(n, ast.For) and norm(n.iter) == "commands":
-                first = n.body[0]
-                ok = isinstance(first, ast.If) and norm(first.test) == "op == 'vsindex'" and isinstance(first.body[0], ast.Continue)
+                opvar = norm(n.target.elts[0]) if isinstance(n.target, ast.Tuple) else "op"
+                scal = [c for c in ast.walk(n) if isinstance(c, ast.Call) and call_name(c) == "_cff_scale"]
+                ok = bool(scal) and all((f"{opvar} == 'vsindex'", False) in implied_conditions(gv, c) for c in scal)
     ctx.ob("SCALE-shape", sm.rel + ":<module>", "charstring command loop skips `vsindex` (its operand is a VarData index, not a length)", ok, "" if ok else "vsindex operand would be multiplied by the scale factor")
     # VARC flag walk order == VarComponentFlags order for the HAVE_* transform flags
     otm = repo.mod("ttLib/tables/otTables.py")
@@ -920,7 +930,7 @@ SKIP_AUDIT = {
 
 
 def skip_audit(ctx, repo, rels=("ttLib/scaleUpem.py",), rule="SKIP"):
-    ctx.rule(rule, "a whole-font rewrite skips a record (continue / early return inside its loops) only under an audited condition; a new skip leaves some records in the old units or numbering", floor=4)
+    ctx.rule(rule, "a whole-font rewrite skips a record (continue / early return inside its loops) only under an audited condition; a new skip leaves some records in the old units or numbering", floor=1)
     for rel in rels:
         mod = repo.mod(rel)
         audit = SKIP_AUDIT.get(rel, {})
